@@ -252,6 +252,24 @@ def _c_facts(src):
     return shift, ok
 
 
+def _c_range(src):
+    """Bounds of an argument check on (ioclass, iodata) in psutil_proc_ioprio_set before the packing."""
+    m = re.search(r"psutil_proc_ioprio_set\(.*?\n}\n", src, re.S)
+    if not m:
+        raise NotRecognised("psutil_proc_ioprio_set not found")
+    body = m.group(0)
+    head = body.split("IOPRIO_PRIO_VALUE(")[0]
+    if "IOPRIO_PRIO_VALUE(" not in body:
+        raise NotRecognised("psutil_proc_ioprio_set does not pack with IOPRIO_PRIO_VALUE")
+    mm = re.search(r"if\s*\(\s*ioclass\s*<\s*(-?\d+)\s*\|\|\s*ioclass\s*>\s*(-?\d+)\s*\|\|\s*iodata\s*<\s*(-?\d+)"
+                   r"\s*\|\|\s*iodata\s*>\s*(-?\d+)\s*\)\s*\{[^}]*PyExc_ValueError[^}]*return NULL;", head)
+    if mm:
+        return tuple(int(x) for x in mm.groups())
+    if re.search(r"\bif\s*\([^)]*(?<!&)\b(ioclass|iodata)\b", head):
+        raise NotRecognised("unrecognised argument check in psutil_proc_ioprio_set")
+    return None
+
+
 def facts(snap, F):
     cache = {}
 
@@ -277,6 +295,10 @@ def facts(snap, F):
               "IOPRIO_CLASS_SHIFT of psutil/arch/linux/proc.c")
     F.try_add("ioprioMacrosCanonical", "Bool", lambda: extract.lean_bool(cf()[1]),
               "IOPRIO_PRIO_MASK/CLASS/DATA/VALUE have the canonical shape and are what ioprio_get/set use")
+    F.try_add("ioprioSetRangeCheck", "Option (Int × Int × Int × Int)",
+              lambda: extract.lean_opt(_c_range(snap.source("arch/linux/proc.c")),
+                                       lambda t: "(" + ", ".join(extract.lean_int(x) for x in t) + ")"),
+              "bounds (a, b, c, d) of `if (ioclass < a || ioclass > b || iodata < c || iodata > d)` -> ValueError in psutil_proc_ioprio_set before the packing; none = no such check")
     F.try_add("ioniceDefaultLevel", "Int", lambda: extract.lean_int(ion()["default"]),
               "`if value is None: value = …` in _pslinux.Process.ionice_set")
     F.try_add("ioniceLevelMin", "Int", lambda: extract.lean_int(ion()["lo"]),
@@ -349,7 +371,8 @@ def _oserr(cls, eno):
 class Sim:
     """Native layer + kernel, written from the C sources and the man pages."""
 
-    def __init__(self, world, on_affinity=None):
+    def __init__(self, world, on_affinity=None, native_range=None):
+        self.native_range = native_range
         self.self_pid = world["self"]
         self.ncpu = world["ncpu"]
         self.nr_open = world["nr_open"]
@@ -387,6 +410,10 @@ class Sim:
 
     def proc_ioprio_set(self, pid, ioclass, iodata):
         pid, c, d = _c_int(pid), _c_int(ioclass), _c_int(iodata)
+        if self.native_range is not None:
+            a, b, x, y = self.native_range
+            if c < a or c > b or d < x or d > y:
+                raise ValueError("ioclass or value out of range")
         v = (c << 13) | d
         v = (v + 2**31) % 2**32 - 2**31          # what this build does on overflow (C17's matter)
         cls, level = (v >> 13) & 7, v & 7
@@ -528,6 +555,10 @@ class SimImpl:
         self.fp = FakeProc(self.ps, prefix="psv-c18-")
         self.sim = None
         self.cur_ncpu = None
+        try:
+            self.native_range = _c_range(ctx.snap.source("arch/linux/proc.c"))
+        except NotRecognised:
+            self.native_range = None
         with open("/proc/self/stat", "rb") as f:
             data = f.read()
         self.stat_tail = data[data.rfind(b")") + 1:]
@@ -568,7 +599,7 @@ class SimImpl:
         self.fp.write("%d/status" % pid, b"\n".join(lines))
 
     def begin(self, world):
-        self.sim = Sim(world, on_affinity=self._write_status)
+        self.sim = Sim(world, on_affinity=self._write_status, native_range=self.native_range)
         if world["ncpu"] != self.cur_ncpu:
             rows = ["cpu  10 0 10 100 0 0 0 0 0 0"]
             rows += ["cpu%d 1 0 1 10 0 0 0 0 0 0" % i for i in range(world["ncpu"])]
@@ -1005,7 +1036,11 @@ def check_live(ctx, res):
     ps = ctx.psutil
     done = 0
     try:
-        env = live.probe()
+        try:
+            env = live.probe()
+        except Exception as e:  # a sandbox that forbids these calls: report, do not fail the check
+            res.notes.append("live part skipped: probing the sandbox failed (%s: %s)" % (type(e).__name__, e))
+            return 0
         res.extra["live_env"] = {k: (v if k != "eligible" else cpulist(v)) for k, v in env.items()}
         if not env["eligible"] or env["eligible"][-1] >= env["ncpu"]:
             res.notes.append("live part skipped: eligible CPUs %r not within 0..%d" % (env["eligible"], env["ncpu"] - 1))
